@@ -92,8 +92,15 @@ func waitLeader(r *Run, cl *SimClient, shard int64, max time.Duration) bool {
 
 func runC08(r *Run) {
 	g := NewRng(r.Seed, "c08")
-	w := NewWorld(r, defaultNetCfg(g))
+	ncfg := defaultNetCfg(g)
+	if lg := NewRng(r.Seed, "c08-late-send"); lg.Chance(60) {
+		// a Send that returns to its caller only after the answer is already on its way back
+		ncfg.LateSendPct = lg.Range(2, 25)
+		ncfg.LateSendMax = time.Duration(lg.Range(500, 8000)) * time.Microsecond
+	}
+	w := NewWorld(r, ncfg)
 	defer w.Close()
+	r.Knobs["late_send"] = fmt.Sprintf("%d%%/%v", ncfg.LateSendPct, ncfg.LateSendMax)
 	w.SitePct = g.Range(20, 80)
 	w.YieldPct = g.Range(5, 50)
 	w.YieldMax = time.Duration(g.Range(50, 4000)) * time.Microsecond
